@@ -129,6 +129,11 @@ Definition satisfies (req env : caps) : bool :=
 Definition filter_by_capabilities (ps : list plugin) (c : caps) : list plugin :=
   filter (fun p => validate_requirements (p_req p) c) ps.
 
+(* a call as the caller sees it: (returned list, the caller's own list afterwards).  FilterByCapabilities
+   builds a new slice and never writes to its argument. *)
+Definition filter_call (ps : list plugin) (c : caps) : list plugin * list plugin :=
+  (filter_by_capabilities ps c, ps).
+
 (* instantiates every InitFn of All (map order: unspecified; here table order), then filters *)
 Definition from_capabilities (all : table) (c : caps) : list plugin :=
   filter_by_capabilities (flat all) c.
